@@ -12,12 +12,28 @@ RULE = ("generated journals (30% ill-formed: missing/duplicate open, wrong asser
 TRUSTED_BASE = ["Coq 8.16.1 kernel", "extraction + drv_c05.ml", "harness c05.go: variant construction, include-tree writer, canonicalisation of printed journals",
                 "the comparison of the binary with itself is done in the harness (Go), not in Coq"]
 ASSUMPTIONS = ["goroutine schedules of the concurrent loader are whatever the runs happen to produce (see C06/C19)"]
-TECHNIQUE = ("Coq: permutation-invariance theorems about the builder and the ledger sums of the model; metamorphic differential runs "
-             "of the binary on permuted and split inputs")
-LEVEL_TEXT = ("Theorems (Properties/C05.v): the builder maps permuted directive lists to days with equal dates and permuted "
-              "per-kind lists; the journal period and hence the partition are invariant; every unvalued report cell (without --close) "
-              "is invariant. The byte-level statement for all commands is decided by the metamorphic runs (partial).")
-LEVEL_NOTE = "Trusted: kernel, extraction, harness. Partial: byte equality of reports/print under permutation is compared, not proved."
+TECHNIQUE = ("Coq: a generic lemma for monadic folds whose steps commute pairwise (fold_res_perm), instantiated for the builder, "
+             "ParseDirective, the checker (all three variants) and the stages ComputePrices, Valuate, Filter, CloseAccounts of the model; "
+             "the include loader returns a permutation of the visited files' directives; metamorphic differential runs of the binary "
+             "on permuted and split inputs")
+LEVEL_TEXT = ("Theorems (Properties/C05.v, all closed under the global context; hypotheses: account names as the parser produces them "
+              "[sd_syntactic], and for balance the property's exclusion [no_conflicting_prices]). "
+              "C05_verdict_perm: `knut check` (pinned, lenient and repaired checker, at the command level incl. accrual expansion) accepts a "
+              "journal iff it accepts every permutation of it; C05_wellformed_perm / C05_check_model_perm / C05_parse_perm likewise for the "
+              "specification, the directive-level checker and ParseDirective. "
+              "C05_build_perm: permuted directive lists give builders with the same dates, the same period and, per day and kind, permuted lists. "
+              "C05_balance_days_perm_partial (+ C05_balance_report_is_days_then_query): for every balance configuration the pipeline in front of "
+              "Query.Into (check, prices, valuate, filter, close; --close's extra days) fails on both inputs or yields the same partition and "
+              "day lists equal up to the order of each day's transactions (valued postings, value adjustments and closing transactions included). "
+              "C05_print_equiv: both prints fail, or the texts are journal.Print of day lists with the same dates and per day and kind the same "
+              "multiset of directives. C05_layout: a successful load is a permutation of the concatenated directives of the visited files "
+              "(each file once per visit) for every include-tree shape. C05_error_depends_on_order: the reported error is not order-invariant, "
+              "so failing runs agree only in failing. "
+              "NOT proved: equality of the balance table/bytes (Query.Into + renderer: a node's amounts list is in first-insertion order); "
+              "that part, and everything about the real binary, is decided by the metamorphic runs (partial).")
+LEVEL_NOTE = ("Trusted: kernel, extraction, harness. Partial: byte equality of balance reports under permutation is proved up to the input of "
+              "Query.Into and compared (binary vs binary, 3 flag sets) beyond it; print equivalence is proved for the model and compared for the binary; "
+              "error class/detail of rejected journals is not invariant and not compared beyond accept/reject.")
 
 
 def plan(tier, seed):
